@@ -1135,6 +1135,8 @@ def gen_election(rng, hostile=False, special=None):
         votes.append([list(r), gen_weight(rng, 'int' if special == 'intweights' else None)])
     if special == 'dec-exponent' and votes:
         votes[0][1] = ['dec', rng.choice(['1E+2', '2.5E+3', '1E-7'])]
+    if special == 'long-decimal' and votes:
+        votes[0][1] = ['dec', str(Decimal('%d.%s' % (rng.randint(0, 10 ** 12), ''.join(rng.choice(string.digits) for _ in range(rng.randint(20, 40))) + '1')))]
     if special == 'zero-weight' and votes:
         votes[0][1] = ['int', 0]
     title = None if rng.random() < 0.4 else gen_name(rng, hostile and rng.random() < 0.5) + rng.choice(['', ' 2024', ' election'])
@@ -1574,13 +1576,14 @@ def explore(ctx, widen=1):
     run_cases(ctx, 'blt', 'blt', blt_cases(ctx.rng, n(2000, 20000) * widen))
     run_cases(ctx, 'blt-boundary', 'blt', list(blt_cases(ctx.rng, n(60, 600), special='dec-exponent'))
               + list(blt_cases(ctx.rng, n(60, 600), special='zero-weight')) + list(blt_cases(ctx.rng, n(20, 100), special='many'))
-              + list(blt_cases(ctx.rng, n(60, 600), special='empty-ranking')))
+              + list(blt_cases(ctx.rng, n(60, 600), special='empty-ranking')) + list(blt_cases(ctx.rng, n(60, 600), special='long-decimal')))
     run_cases(ctx, 'blt-hostile-names', 'blt', blt_cases(ctx.rng, n(100, 1500), hostile=True))
     run_cases(ctx, 'blt-tokens', 'blt-tokens', token_cases(ctx.rng, n(4000, 40000) * widen))
     stv_stream(ctx, n(1500, 15000) * widen)
     stv_stream(ctx, n(40, 400), special='many')
     stv_stream(ctx, n(40, 400), special='dec-exponent')
     stv_stream(ctx, n(40, 400), special='empty-ranking')
+    stv_stream(ctx, n(40, 400), special='long-decimal')
     stv_stream(ctx, n(60, 800), hostile=True)
     malformed_stream(ctx, n(8000, 80000) * widen)
     if os.environ.get('C19_DEBUG'):
